@@ -37,3 +37,17 @@ def multisets(symbols, n):
 
 def words(symbols, n):
     return ["".join(w) for w in product(symbols, repeat=n)]
+
+
+def assume_nested_or_disjoint(ctx, spans):
+    """well-formedness of one host thread: spans [(ts, end)] pairwise nested or disjoint (touching allowed)."""
+    for a in range(len(spans)):
+        for b in range(a + 1, len(spans)):
+            (s1, e1), (s2, e2) = spans[a], spans[b]
+            ctx.assume(sor(e1 <= s2, e2 <= s1, sand(s1 <= s2, e2 <= e1), sand(s2 <= s1, e1 <= e2)))
+
+
+def assume_distinct(ctx, xs):
+    for a in range(len(xs)):
+        for b in range(a + 1, len(xs)):
+            ctx.assume(xs[a] != xs[b])
